@@ -103,8 +103,8 @@ impl Scenario for TransScenario {
 
     fn runs(&self, tier: Tier) -> u64 {
         match tier {
-            Tier::Quick => 40_000,
-            Tier::Thorough => 1_000_000,
+            Tier::Quick => 120_000,
+            Tier::Thorough => 4_000_000,
         }
     }
 
